@@ -128,7 +128,10 @@ func errStr(err error) string {
 	return "ok"
 }
 
-var annotOtherKeys = []string{"other", "a", "b", "delete-slots2", "Delete-Slots", "delete-slot", "paused-reconcile2", "Paused-Reconcile", "paused", "pingcap-com-x", "z"}
+// near misses are derived from the helper's own constants: the key as a suffix, as a prefix, group-qualified, in another case
+var annotOtherKeys = []string{"other", "a", "b", "delete-slots2", "Delete-Slots", "delete-slot", "paused-reconcile2", "Paused-Reconcile", "paused", "pingcap-com-x", "z",
+	"backup.example.com/" + helper.DeleteSlotsAnn, "no-" + helper.DeleteSlotsAnn, "apps.pingcap.com/" + helper.DeleteSlotsAnn, helper.DeleteSlotsAnn + "/x", " " + helper.DeleteSlotsAnn,
+	"was-" + helper.PausedReconcileAnn, "apps.pingcap.com/" + helper.PausedReconcileAnn, helper.PausedReconcileAnn + ".old", "x" + helper.PausedReconcileAnn}
 
 func genSlotInts(rng *rand.Rand) string {
 	n := weighted(rng, 12, 20, 25, 20, 10, 8, 5)
